@@ -347,6 +347,21 @@ def step (st : State) (w : List String) : State × String :=
       let ede := match r.ede with | some c => toString c | none => "none"
       (st, s!"rcode={r.rcode} ad={boolStr r.ad} n={r.answers} ede={ede} opt={boolStr o}")
     | none => (st, "bad-op")
+  | ["keycache", "run", evs] =>
+    let parse : String → Option KeyEv := fun e =>
+      match e with
+      | "x" => some .expire
+      | "q0a" => some (.ask false true) | "q0b" => some (.ask false false)
+      | "q1a" => some (.ask true true) | "q1b" => some (.ask true false)
+      | _ => none
+    match (listOf evs).mapM parse with
+    | some es =>
+      let c0 : KeyCache := { e0 := none, e1 := none }
+      let show' : Option KV → String := fun o => match o with | some v => v.str | none => "none"
+      let rs := (c0.replies es).map fun o => match o with | some v => v.str | none => "-"
+      let c := c0.run es
+      (st, s!"replies={",".intercalate rs} v0={show' (c.fetch false)} v1={show' (c.fetch true)}")
+    | none => (st, "bad-op")
   | "l3" :: _ => (st, "unmodelled")
   | _ => (st, "bad-op")
 
